@@ -6,6 +6,7 @@ import (
 	"sort"
 
 	"github.com/mlange-42/arche/ecs"
+	"github.com/mlange-42/arche/generic"
 )
 
 // C18, mode resource: generic.Resource / ecs.AddResource / ecs.GetResource against their ID-based equivalents.
@@ -15,6 +16,9 @@ import (
 // resource IDs. Both get the same pointers. After PRNG-chosen steps every route into G must report exactly what
 // K reports for the same type, and a call that panics on K must panic on G (and the other way round).
 func caseC18Resource(c *Ctx) {
+	if c.Case%500 == 0 {
+		checkTypeLists(c)
+	}
 	gw, kw := ecs.NewWorld(), ecs.NewWorld()
 	keys := []string{"S0", "S1", "S2", "S3", "S4", "S5", "S6", "S7", "S8", "S9", "S10", "S11", "R0", "R1", "Q0", "Q1", "Q2", "Q3", "Q4", "Q5", "Q6"}
 	Shuffle(c.R, keys)
@@ -213,4 +217,30 @@ func caseC18Resource(c *Ctx) {
 	if !failed && replaced >= 2 && cov.N["res_twin_rejected_calls"] >= 1 && cov.N["res_twin_observations"] >= 10 {
 		c.NonTrivial(HashStr(fmt.Sprint(log)))
 	}
+}
+
+// checkTypeLists: generic.T1..T12 are the documented way to spell the argument lists of With/Without/Optional;
+// each must list exactly its type parameters, in order (compared with the single-type form T[X]).
+func checkTypeLists(c *Ctx) {
+	want := []generic.Comp{generic.T[G0](), generic.T[G1](), generic.T[G2](), generic.T[G3](), generic.T[G4](), generic.T[G5](),
+		generic.T[G6](), generic.T[G7](), generic.T[G8](), generic.T[G9](), generic.T[G10](), generic.T[G11]()}
+	got := [][]generic.Comp{
+		generic.T1[G0](), generic.T2[G0, G1](), generic.T3[G0, G1, G2](), generic.T4[G0, G1, G2, G3](), generic.T5[G0, G1, G2, G3, G4](),
+		generic.T6[G0, G1, G2, G3, G4, G5](), generic.T7[G0, G1, G2, G3, G4, G5, G6](), generic.T8[G0, G1, G2, G3, G4, G5, G6, G7](),
+		generic.T9[G0, G1, G2, G3, G4, G5, G6, G7, G8](), generic.T10[G0, G1, G2, G3, G4, G5, G6, G7, G8, G9](),
+		generic.T11[G0, G1, G2, G3, G4, G5, G6, G7, G8, G9, G10](), generic.T12[G0, G1, G2, G3, G4, G5, G6, G7, G8, G9, G10, G11](),
+	}
+	for n, l := range got {
+		if len(l) != n+1 {
+			c.Fail(Violation{Kind: "generic.typelist", Msg: fmt.Sprintf("generic.T%d lists %d types", n+1, len(l))}, nil)
+			return
+		}
+		for i := range l {
+			if l[i] != want[i] {
+				c.Fail(Violation{Kind: "generic.typelist", Msg: fmt.Sprintf("generic.T%d: position %d is %v, declared type parameter %v", n+1, i, l[i], want[i])}, nil)
+				return
+			}
+		}
+	}
+	c.Cov.N["type_lists_checked"] += len(got)
 }
